@@ -437,7 +437,8 @@ class MTSP:
 
     @staticmethod
     def step_bound(inst):
-        return len(inst["locs"]) - 1 + inst["num_agents"]
+        # one step per customer plus at most one intermediate depot return per further agent (the closing return is not a step)
+        return (len(inst["locs"]) - 1) + (inst["num_agents"] - 1)
 
 
 class MTVRP:
